@@ -11,6 +11,7 @@ lake, bins = [], []
 for i in ids:
     P = importlib.import_module("fv.props.%s" % i.lower()).P
     lake.append("FluentProofs.Props.%s" % i)
+    lake.extend(getattr(P, "EXTRA_MODULES", []))
     for a in [P.AREA] + list(getattr(P, "EXTRA_AREAS", [])):
         if "fvm_" + a not in lake:
             lake.append("fvm_" + a)
